@@ -273,18 +273,56 @@ PLAN = e1prop.Plan('C10', WRAP_ROWS, cfgs=('v6', 'v7', 'v5'), classify=classify,
                                                 **({'mode': rng.choice(('svc', 'irq', 'fiq', 'abt', 'und')), 'code_base': 0x8000} if row.name in RETURN_ROWS else {})))
 
 
+# every other row with reference semantics: the range invariant holds after *every* instruction; operands at the 2^32 / 2^31 edges, multiplies
+# with C09's generator (accumulate results of exactly / beyond 2^64), flag-setting forms included (a flag written as 2 widens CPSR)
+OTHER_ROWS = sorted(n for n in REG if n in e1prop.ROWS and n not in WRAP_ROWS and n not in ('CBZ_T1', 'PUSH_T2', 'BFI_A1', 'BFI_T1', 'MRS_A1_app', 'MRS_T1_app'))
+EDGE2 = EDGE + [0x7FFFFFFF, 0x80000001, 0xFFFF0000, 0x0000FFFF, 0x80008000, 0x7FFF7FFF]
+
+
+def edge_tweak(rng, row, w, case):
+    if REG[row.name][1].__module__ == 'vf.ref.sem_mul' and rng.random() < 0.8:
+        from vf.props import c09
+        c09.tweak(rng, row, w, case)
+        return
+    f = row.extract(w)
+    st_ = case['state']
+    mode = gen.MODE_NAME[st_['cpsr'] & 31]
+    for fld in ('n', 'm', 'a', 's', 'h', 'l', 'd', 't'):
+        v = f.get(fld)
+        if isinstance(v, int) and v <= 14 and rng.random() < 0.7:
+            st_[gen.bank_key(v, mode)] = rng.choice(EDGE2)
+
+
+def classify_all(res, case):
+    out = []
+    if res.status in ('ok', 'undef', 'svc', 'smc') and res.cond_passed:
+        M, pre = res.M, res.pre
+        if (pre['cpsr'] ^ M.s['cpsr']) & 0xF80F0000:
+            out.append('flags-written')
+        if any(k.startswith('R.') and k != 'R.PC' and pre.get(k) != v for k, v in M.s.items()):
+            out.append('register-written')
+    return out
+
+
+PLAN_ALL = e1prop.Plan('C10', OTHER_ROWS, cfgs=('v6', 'v7', 'v7r', 'v5'), classify=classify_all, nontrivial=lambda res: bool(classify_all(res, None)),
+                       tweak_case=edge_tweak, case_kw=lambda rng, row: {'mpu': False, 'mmu': False, 'e': 0})
+
+
 def run(ctx):
     ctx.rule = ('History half: Hypothesis RuleBasedStateMachine over a real Registers object (configs with/without security and virtualization): '
                 'rules set(n,v), set_rmode(n,mode,v), direct mode switch, cpsr_write_by_instr (legal writes), set_spsr, every take_*_exception at PC values '
                 'incl. 0/2/4/2^32-4/2^32-2; model = state dictionary keyed by physical bank (table A.1 of DESIGN.md) with the reference entry rules; after '
                 'every rule the complete snapshot, every (n, mode) read and the 0..2^32-1 range are checked. Non-trivial history: >=2 mode switches and a '
                 'banked write from another mode. Range half: load/store/block/branch/exception encodings with bases, SPs and instruction addresses at '
-                '0 / 2^32 / 0x80000000 edges compared with the reference; non-trivial = a register moved across the 2^32 boundary (wrap).')
+                '0 / 2^32 / 0x80000000 edges compared with the reference; non-trivial = a register moved across the 2^32 boundary (wrap). Plus every other encoding row '
+                '(data-processing, multiply/SIMD, system) with operands at the 2^31 / 2^32 edges and exact-2^64 accumulates: complete comparison and the range invariant '
+                '(registers, CPSR, SPSRs, ELR_hyp in 0..2^32-1) after every instruction; non-trivial = flags or a register written.')
     ctx.technique = 'stateful model-based property testing (Hypothesis rule-based machine) + differential stepping focused on wrap-around'
     ctx.assumptions = ['vf/ref bank table and exception-entry rules are faithful readings of DDI 0406C B1.3 / B1.9']
     tasks = [(shard_machine, (ctx.shard_seed(i), ctx.n(60, 2500), ctx.n(40, 50))) for i in range(16)]
     ctx.pmap(_dispatch, tasks)
     e1prop.run_plan(ctx, 'vf.props.c10:PLAN', PLAN, shards=16, quick=500, thorough=9000)
+    e1prop.run_plan(ctx, 'vf.props.c10:PLAN_ALL', PLAN_ALL, shards=16, quick=500, thorough=9000)
 
 
 def _dispatch(fn, args):
@@ -296,4 +334,4 @@ def replay(case, bucket=None):
         hist = [tuple(h) for h in case['history']]
         msg = replay_history(hist)
         return [msg] if msg else []
-    return e1prop.replay(PLAN, case)
+    return e1prop.replay(PLAN, case) or e1prop.replay(PLAN_ALL, case)
